@@ -303,7 +303,8 @@ namespace BitSerializer
 				{
 					if (ch == '-')
 					{
-						if (!isLastDigit || i + 1 == strSize) {
+						// The dash should follow a digit and cannot be last (trailing spaces do not count)
+						if (!isLastDigit || str.find_first_not_of(' ', i + 1) == str.npos) {
 							error = "Invalid phone number (dashes should be used to separate numbers)";
 						}
 					}
